@@ -392,7 +392,7 @@ var clauseKeywords = map[string]bool{
 	"use": true, "split": true, "reveal": true, "inline": true, "induction": true, "trigger": true,
 	"unroll": true, "assert": true, "inst": true, "nounfold": true, "unfold": true, "timeout": true,
 	"bounded": true, "havocs": true, "pure": true, "reads": true, "modifies": true, "decreases": true,
-	"effects": true, "case": true, "fuel": true, "assertret": true, "splitret": true, "mapentries": true, "dyntype": true, "witness-gen": true, "defines": true, "establishes": true, "instdepth": true, "useret": true, "initphase": true, "note": true, "trusted": true, "logged": true, "instdepthret": true, "regionctx": true,
+	"effects": true, "case": true, "fuel": true, "assertret": true, "splitret": true, "mapentries": true, "dyntype": true, "witness-gen": true, "defines": true, "establishes": true, "instdepth": true, "useret": true, "initphase": true, "note": true, "trusted": true, "logged": true, "instdepthret": true, "regionctx": true, "checked": true,
 }
 
 // ParseSpecFile reads a contract file. Lines of interest start with "//@" (in .go files) or are
@@ -581,7 +581,7 @@ func ParseSpecFile(path string, pkgPath string) (*SpecFile, error) {
 		default:
 			c := &Clause{Kind: kw, Text: rest, Line: loc}
 			switch kw {
-			case "requires", "ensures", "invariant", "assert", "inst", "case", "assertret":
+			case "requires", "ensures", "invariant", "assert", "inst", "case", "assertret", "checked":
 				e, err := ParseExpr(rest)
 				if err != nil {
 					return nil, perr(l, "%v", err)
@@ -604,7 +604,7 @@ func ParseSpecFile(path string, pkgPath string) (*SpecFile, error) {
 					curLem.Trigger = call
 				}
 				curLem.Clauses = append(curLem.Clauses, c)
-			case curL != nil && kw != "requires" && kw != "ensures" && kw != "assigns" && kw != "useret" && kw != "splitret" && kw != "assertret" && kw != "instdepthret":
+			case curL != nil && kw != "requires" && kw != "ensures" && kw != "assigns" && kw != "useret" && kw != "splitret" && kw != "assertret" && kw != "instdepthret" && kw != "checked":
 				curL.Clauses = append(curL.Clauses, c)
 			case curF != nil:
 				curF.Clauses = append(curF.Clauses, c)
